@@ -62,6 +62,10 @@ pub enum Op {
     /// panic, the caller catches it and goes on using the builder (C20)
     Rejected {
         dup_of: usize,
+        /// instead of reusing a name: a fresh name with a dependency on a system that was never
+        /// registered (rejected by a panic too)
+        #[serde(default)]
+        unknown_dep: bool,
     },
 }
 
@@ -614,6 +618,7 @@ fn gen_builder(
         if !named.is_empty() && src.chance(cfg.p_rejected, 16) {
             ops.push(Op::Rejected {
                 dup_of: named[src.pick(named.len())],
+                unknown_dep: src.chance(6, 16),
             });
             continue;
         }
@@ -706,7 +711,7 @@ fn remove_op(ops: &[Op], i: usize) -> Vec<Op> {
         match &mut op {
             Op::Sys { deps, .. } => fix(deps),
             Op::Batch { deps, .. } => fix(deps),
-            Op::Rejected { dup_of } => {
+            Op::Rejected { dup_of, .. } => {
                 if *dup_of == i {
                     continue;
                 }
